@@ -29,6 +29,7 @@ type material struct {
 	ca1, ca2       *x509.Certificate
 	ca1Key, ca2Key *ecdsa.PrivateKey
 	ca1PEM         []byte
+	caBundlePEM    []byte // the CA *file*: a bundle holding an unrelated CA first, then CA one
 
 	srv0, srv1, srv2             tls.Certificate
 	srv0Leaf, srv1Leaf, srv2Leaf *x509.Certificate
@@ -265,7 +266,12 @@ func mint() (mt *material, err error) {
 	if err = write("ec-other.key", b); err != nil {
 		return nil, err
 	}
-	if err = write("ca1.ca", mt.ca1PEM); err != nil {
+	_, _, extraPEM, err := mintCA("verif unrelated CA in the bundle")
+	if err != nil {
+		return nil, err
+	}
+	mt.caBundlePEM = append(append([]byte{}, extraPEM...), mt.ca1PEM...)
+	if err = write("ca1.ca", mt.caBundlePEM); err != nil {
 		return nil, err
 	}
 	if err = write("garbage", []byte("this is not PEM\x00\x01\x02 -----BEGIN NOTHING-----\nAAAA\n")); err != nil {
